@@ -354,14 +354,14 @@ def _model_loop(E, dt, steps, msteps, dtid, k, ctx, modtext, modname):
                 continue
             _fail(E, idx, ['GotWantException'], True, (ms['want_line'], ms['want_line']))
             break
-        full = ANSI_RE.sub('', ''.join(window + [res['out']]))
+        full = ANSI_RE.sub('', ''.join(window + [res['out']])).replace('\r\n', '\n')
         wt = want_text + '\n'
         vr = res['value_repr']
 
         def same(a, b):
             # exact up to the final line break (an unfinished last line is still that line)
             # and up to terminal colour codes, which the comparison always removes
-            return ANSI_RE.sub('', a).rstrip('\n') == ANSI_RE.sub('', b).rstrip('\n')
+            return ANSI_RE.sub('', a).replace('\r\n', '\n').rstrip('\n') == ANSI_RE.sub('', b).replace('\r\n', '\n').rstrip('\n')
         if isinstance(vr, tuple):
             # repr raised: only consulted when stdout does not settle it
             if res['out'] and (same(full, wt) or same(res['out'], wt)):
